@@ -285,6 +285,17 @@ theorem schedule_independent (cap : Nat) (tidOf : Nat → Nat) (hinj : ∀ a b, 
   rw [solo_is_sequential cap c0 σ₂ i, ← hc] at a2
   exact ⟨a1.1.trans a2.1.symm, fun k => (a1.2.1 k).trans (a2.2.1 k).symm⟩
 
+/-- The stream part of a thread is a C01 buffer machine: under every schedule
+    and whatever the other threads (or anybody racing `ovni_proc_init` /
+    `ovni_proc_fini`) do, the buffer, the records written so far and the clock
+    of thread `i` are the result of running *some* sequence of `Rt.step`
+    operations — its own — from its initial state. Hence every invariant C01
+    proves for `Rt.run` (`run_fidelity`, `buffer_in_bounds`, C02's validity)
+    holds for each thread of a concurrent execution. -/
+theorem thread_stream_is_buffer_run (fp : Foot) (cap : Nat) (c0 : Cfg D) (σ : List Nat) (i : Nat) :
+    ∃ ops : List (Op D), run cap (c0.th i).t.s ops = some ((runSched fp cap c0 σ).th i).t.s :=
+  stream_run fp cap i σ c0
+
 /-! ### Non-vacuity, and what happens without the hypotheses -/
 
 section Examples
